@@ -257,3 +257,90 @@ def replay_delta_callsite(site, ptype):
         return True, "DELTA_BINARY_PACKED %s column in a data page %s: %s" % (
             "INT64" if ptype == 2 else "INT32", "v2" if site.endswith("v2") else "v1", info)
     return False, "decodes correctly"
+
+
+def type_tables():
+    """writer.typemap  o  converted_types.simple/complex  ==  canonical dtype, and the (physical, converted) pairs
+    follow the format's table (signed/unsigned INT_n annotate INT32 up to 32 bits, INT64 for 64).
+    The live dictionaries are exported to z3 finite maps; one query asks for a dtype name whose round trip differs."""
+    import numpy as np
+    import fastparquet.writer as writer
+    import fastparquet.converted_types as ct
+    from fastparquet import parquet_thrift as pt
+    res = _res("lemma.type_tables[writer.typemap/converted_types]", ["writer.typemap", "converted_types.simple",
+                                                                     "converted_types.complex"], {})
+    names = sorted(k for k in writer.typemap if k[0].islower() and k != "boolean")      # numpy dtype names
+    dtypes = sorted({str(np.dtype(n)) for n in names} | {str(v) for v in ct.simple.values()} |
+                    {str(v) for v in ct.complex.values()})
+    didx = {d: i for i, d in enumerate(dtypes)}
+    NONE = -1
+    P = z3.Function("physical", z3.IntSort(), z3.IntSort())
+    C = z3.Function("converted", z3.IntSort(), z3.IntSort())
+    W = z3.Function("bits", z3.IntSort(), z3.IntSort())
+    S = z3.Function("simple", z3.IntSort(), z3.IntSort())
+    X = z3.Function("complex", z3.IntSort(), z3.IntSort())
+    CAN = z3.Function("canonical", z3.IntSort(), z3.IntSort())
+    s = z3.Solver()
+    for i, n in enumerate(names):
+        p, c, w = writer.typemap[n]
+        s.add(P(i) == p, C(i) == (NONE if c is None else c), W(i) == w)
+        canon = "float32" if n == "float16" else str(np.dtype(n))      # documented: float16 is stored as FLOAT
+        s.add(CAN(i) == didx[canon])
+    for k, v in ct.simple.items():
+        s.add(S(k) == didx[str(v)])
+    for k, v in ct.complex.items():
+        s.add(X(k) == didx[str(v)])
+    n = z3.Int("n")
+    s.add(n >= 0, n < len(names))
+    if _check(res, s) != "sat":
+        res["status"] = "inconclusive"
+        return res
+    reader = z3.If(C(n) == NONE, S(P(n)), X(C(n)))
+    # the format's table for integer annotations
+    spec = []
+    for name, (phys, conv) in {"int8": (pt.Type.INT32, pt.ConvertedType.INT_8),
+                               "int16": (pt.Type.INT32, pt.ConvertedType.INT_16),
+                               "uint8": (pt.Type.INT32, pt.ConvertedType.UINT_8),
+                               "uint16": (pt.Type.INT32, pt.ConvertedType.UINT_16),
+                               "uint32": (pt.Type.INT32, pt.ConvertedType.UINT_32),
+                               "uint64": (pt.Type.INT64, pt.ConvertedType.UINT_64),
+                               "int32": (pt.Type.INT32, NONE), "int64": (pt.Type.INT64, NONE),
+                               "float32": (pt.Type.FLOAT, NONE), "float64": (pt.Type.DOUBLE, NONE),
+                               "bool": (pt.Type.BOOLEAN, NONE)}.items():
+        if name in names:
+            i = names.index(name)
+            spec.append(z3.And(n == i, z3.Or(P(n) != phys, C(n) != conv)))
+    r = _check(res, s, z3.Or(reader != CAN(n), *spec))
+    if r == "sat":
+        i = s.model().eval(n, model_completion=True).as_long()
+        res["status"] = "violation"
+        res["findings"].append(dict(
+            kind="contract", function="writer.typemap/converted_types", obligation="type tables round trip",
+            detail="a column of dtype %s is written as %r and read back as another dtype" % (names[i],
+                                                                                           writer.typemap[names[i]]),
+            shape=dict(harness="lemma.type_tables", dtype=names[i]), cls="lemma:type_tables",
+            witness=dict(driver="py:vf.pyshim.lemmas:replay_type_tables", args=dict(dtype=names[i]))))
+    elif r == "unknown":
+        res["status"] = "inconclusive"
+    res["reached"] = len(names)
+    return res
+
+
+def replay_type_tables(dtype):
+    import os, shutil, tempfile
+    import numpy as np
+    import pandas as pd
+    import fastparquet
+    d = tempfile.mkdtemp(prefix="c01-")
+    try:
+        vals = np.array([0, 1, 1, 0], dtype=dtype) if dtype == "bool" else np.array([1, 2, 100, 7]).astype(dtype)
+        df = pd.DataFrame({"x": vals})
+        fn = os.path.join(d, "t.parq")
+        fastparquet.write(fn, df)
+        out = fastparquet.ParquetFile(fn).to_pandas()
+        want = "float32" if dtype == "float16" else dtype
+        if str(out["x"].dtype) != want or not (out["x"].astype("float64") == df["x"].astype("float64")).all():
+            return True, "a %s column comes back as %s with values %r" % (dtype, out["x"].dtype, list(out["x"]))
+        return False, "dtype and values preserved"
+    finally:
+        shutil.rmtree(d, ignore_errors=True)
